@@ -205,6 +205,15 @@ MUTATIONS += [
     dict(id="C07-packer-addraw-inverted", prop="C07", file=PK, old="        if self.indexer.read().unwrap().has(self.blob_type, id) {\n            Ok(())", new="        if !self.indexer.read().unwrap().has(self.blob_type, id) {\n            Ok(())"),
 ]
 
+# ---- C02 prune execution (per-pack decision)
+MUTATIONS += [
+    dict(id="C02-exec-keep-goes-to-marked", prop="C02", file=PR, old="                    let pack = pack.into_index_pack(prune_time);\n                    indexer.add(pack)?;\n                }\n                PackToDo::Repack => {", new="                    let pack = pack.into_index_pack(prune_time);\n                    indexer.add_remove(pack)?;\n                }\n                PackToDo::Repack => {"),
+    dict(id="C02-exec-recover-deleted-when-instant", prop="C02", file=PR, old="                PackToDo::Recover => {\n                    // recover pack: add to new index in section packs\n                    let pack = pack.into_index_pack_with_time(prune_time);\n                    indexer.add(pack)?;", new="                PackToDo::Recover if opts.instant_delete => delete_pack(&pack),\n                PackToDo::Recover => {\n                    // recover pack: add to new index in section packs\n                    let pack = pack.into_index_pack_with_time(prune_time);\n                    indexer.add(pack)?;"),
+    dict(id="C02-exec-repack-not-queued-when-instant", prop="C02", file=PR, old="                    pack.blobs.sort_unstable();\n                    repack_packs.push(pack);", new="                    pack.blobs.sort_unstable();\n                    if !opts.instant_delete {\n                        repack_packs.push(pack);\n                    }"),
+    dict(id="C02-exec-markdelete-queued-for-repack", prop="C02", file=PR, old="                PackToDo::MarkDelete => {\n                    if opts.instant_delete {", new="                PackToDo::MarkDelete => {\n                    repack_packs.push(pack.clone());\n                    if opts.instant_delete {"),
+    dict(id="C02-exec-keepmarked-becomes-live", prop="C02", file=PR, old="                        let pack = pack.into_index_pack(prune_time);\n                        indexer.add_remove(pack)?;\n                    }\n                }\n                PackToDo::Recover => {", new="                        let pack = pack.into_index_pack(prune_time);\n                        indexer.add(pack)?;\n                    }\n                }\n                PackToDo::Recover => {"),
+]
+
 HARMLESS = [
     dict(id="H-C05-trees-symlink-continue", prop="C05", file=CK, old="        for node in tree.nodes {\n            match node.node_type {", new="        for node in tree.nodes {\n            if node.node_type == NodeType::Symlink {\n                continue;\n            }\n            match node.node_type {"),
 ]
